@@ -1,7 +1,15 @@
-"""C36 — the large-object treadmill accounts for every object exactly once."""
-import re
+"""C36 — the large-object treadmill accounts for every object exactly once.
+
+Two differential streams share the one evidence file / exit code:
+  * `tread` — the real `util::treadmill::TreadMill` driven with the LOS protocol written out by the generator;
+  * `los`   — the REAL `LargeObjectSpace<VerifVM>` of a real MMTk instance (one hx_unit process per plan), driven by
+              hand exactly as a collection does: prepare(full) / trace_object(queue, obj) / release(full); which set
+              `copy` is called with, when the mark state flips, which bits an object carries is decided by mmtk-core.
+"""
+import argparse, json, os, re, time
 from vlib import unit
-from vlib.engine import Case
+from vlib import engine as E
+from vlib.engine import Case, Violation
 
 SETS = re.compile(r"^(.*) \| F=\[([\d,]*)\] T=\[([\d,]*)\] C=\[([\d,]*)\] A=\[([\d,]*)\]$")
 
@@ -257,11 +265,381 @@ class Spec(unit.UnitSpec):
 
 
 META = {
-    "text": 'Lean theorems over all LOS-protocol histories (any length, any objects): one_set — the four treadmill sets are duplicate-free, pairwise disjoint and their union is exactly the added-and-not-yet-swept objects (count = 1); sweep_exact — after flip(full) and any marking phase, release hands back exactly the unmarked objects of the allocation nursery (and, full GC, of the old to-space), each once, every marked object ends in to_space unswept; nursery_gc_keeps_mature; protocol_never_panics (TreadMill::copy\'s debug assertion cannot fire). Model = the five TreadMill methods over duplicate-free lists, compared exactly (all four sets after every op) with the real TreadMill.',
-    "note": 'Trusted: Lean kernel + standard axioms; HashSet modelled as duplicate-free list; the LOS protocol (allowed) is read off largeobjectspace.rs and is an assumption of the theorems; tie = sampling differential through verif::ds::TreadMill + verif_sets accessor with fake never-mapped ObjectReferences; malformed stream (protocol violations, mutex poisoning in debug, double membership in release) is compared model-vs-code only.',
+    "text": 'Two layers. (1) TreadMill: Lean theorems over all LOS-protocol histories (any length, any objects): one_set — the four treadmill sets are duplicate-free, pairwise disjoint and their union is exactly the added-and-not-yet-swept objects (count = 1); sweep_exact — after flip(full) and any marking phase, release hands back exactly the unmarked objects of the allocation nursery (and, full GC, of the old to-space), each once, every marked object ends in to_space unswept; nursery_gc_keeps_mature; protocol_never_panics (TreadMill::copy\'s debug assertion cannot fire). Model = the five TreadMill methods over duplicate-free lists, compared exactly (all four sets after every op) with the real TreadMill. (2) LargeObjectSpace itself (Model/LOS.lean: initialize_object_metadata, prepare, is_in_nursery, test_and_mark with its two masks, trace_object, release; histories = alloc / set_allocate_as_live / prepare f / trace of any live object any number of times / release f): los_one_set; los_bits (nursery bit <=> object in alloc or collection nursery, mark bit = mark_state <=> object in to_space/alloc nursery/(nursery GC) collection nursery); los_sweep_exact (release sweeps exactly the untraced objects of the collected sets — nursery always, mature iff full — each once; traced and as-live-allocated objects are kept; an object is enqueued exactly at its first trace in a GC that collects it, so at most once); los_nursery_gc_keeps_mature; los_swept_once_ever (#allocations = #sweeps + [alive] per address); los_protocol_never_panics. This model is compared exactly with the REAL LargeObjectSpace of real MMTk instances (GenImmix, SemiSpace; thorough: 6 plans) driven by hand through prepare/trace_object/release, printing mark_state, in_nursery_gc, the four sets and the raw bits of every live object after every op; swept ids come from the release_pages events of the sweep closure.',
+    "note": 'Trusted: Lean kernel + standard axioms; HashSet modelled as duplicate-free list; the LOS protocol (allowed) is read off largeobjectspace.rs and is an assumption of the theorems; tie = sampling differential through verif::ds::TreadMill + verif_sets accessor with fake never-mapped ObjectReferences; malformed stream (protocol violations, mutex poisoning in debug, double membership in release) is compared model-vs-code only. LOS layer: single GC worker (CAS succeeds at once; contention is C18), the plan-level protocol (Mmtk.LOS.allowed) is an assumption read off CommonPlan::prepare/release and ProcessEdgesWork, VO/unlog bits not modelled; tie = sampling differential through verif::los hooks on a real plan instance, no GC is run.',
     "technique": 'Lean 4 proof (invariant over a protocol transition system, induction over histories) + exact differential',
 }
 
 
+
+# =====================================================================================================================
+# the `los` stream: the real LargeObjectSpace
+# =====================================================================================================================
+
+LOS_LINE = re.compile(r"^(\S+) \| ms=(\d+) ng=(\d+) F=\[([^\]]*)\] T=\[([^\]]*)\] C=\[([^\]]*)\] A=\[([^\]]*)\] bits=\[([^\]]*)\]$")
+PLANS_QUICK = ["GenImmix", "SemiSpace"]
+PLANS_THOROUGH = ["GenImmix", "GenCopy", "StickyImmix", "SemiSpace", "Immix", "MarkSweep"]
+
+
+def los_parse(line):
+    """-> dict(res, ms, ng, F, T, C, A, bits{id: value}) or None (panic / garbage / `?addr` entries)."""
+    m = LOS_LINE.match(line)
+    if not m:
+        return None
+    try:
+        sets = [[int(x) for x in g.split(",")] if g else [] for g in m.groups()[3:7]]
+        bits = dict((int(a), int(b)) for a, b in (x.split(":") for x in m.group(8).split(","))) if m.group(8) else {}
+    except ValueError:
+        return None
+    return {"res": m.group(1), "ms": int(m.group(2)), "ng": int(m.group(3)), "F": sets[0], "T": sets[1], "C": sets[2],
+            "A": sets[3], "bits": bits}
+
+
+class LosGen:
+    """Protocol-respecting histories for the real LOS.  The python shadow (young / old id sets) only decides which
+    ids are still alive, so that valid histories never name a swept object."""
+
+    def __init__(self, rng, plan, nobj, ngc):
+        self.rng, self.ops = rng, [f"los reset {plan}"]
+        self.young, self.old, self.dead = set(), set(), set()
+        self.next, self.nobj, self.ngc, self.count = 1, nobj, ngc, 0
+        self.aslive = False
+        self.stats = {"gcs": 0, "full": 0, "max_full_survivals": 0}
+        self.surv = {}             # id -> consecutive full GCs survived
+
+    def alloc(self, k=1):
+        for _ in range(k):
+            if self.count >= self.nobj:
+                return
+            o = self.next if self.rng.random() < 0.8 else self.rng.randrange(self.next, self.next + 40)
+            self.next, self.count = o + 1, self.count + 1
+            (self.old if self.aslive else self.young).add(o)
+            self.ops.append(f"los alloc {o}")
+
+    def gc(self, full, pmark, keep):
+        rng = self.rng
+        self.ops.append(f"los prepare {1 if full else 0}")
+        collected = set(self.young) | (set(self.old) if full else set())
+        everything = sorted(self.young | self.old)
+        traced = set()
+        work = [o for o in everything if o in keep or rng.random() < pmark]
+        work += [rng.choice(work) for _ in range(rng.randrange(0, 4)) if work]        # repeats
+        rng.shuffle(work)
+        for o in work:
+            self.ops.append(f"los trace {o}")
+            traced.add(o)
+            if rng.random() < 0.15:
+                self.ops.append(f"los trace {o}")                                       # immediate re-trace
+            if rng.random() < 0.06 and self.count < self.nobj:                          # allocation as live while marking
+                self.ops.append("los aslive 1"); self.aslive = True
+                self.alloc(rng.randrange(1, 3))
+                if rng.random() < 0.5:
+                    self.ops.append(f"los trace {self.next - 1}")
+                self.ops.append("los aslive 0"); self.aslive = False
+        self.ops.append(f"los release {1 if full else 0}")
+        swept = collected - traced
+        self.dead |= swept
+        self.young -= collected
+        self.old = (self.old - swept) | (collected & traced)
+        self.stats["gcs"] += 1
+        if full:
+            self.stats["full"] += 1
+            self.surv = {o: self.surv.get(o, 0) + 1 for o in self.old if o in collected}
+            self.stats["max_full_survivals"] = max([self.stats["max_full_survivals"], *self.surv.values()])
+
+    def history(self):
+        rng = self.rng
+        shape = rng.choice(["mixed", "mixed", "mixed", "full-chain", "all-die", "nursery-only", "all-live"])
+        pfull = {"mixed": 0.45, "full-chain": 1.0, "all-die": 0.6, "nursery-only": 0.0, "all-live": 0.5}[shape]
+        pmark = {"all-die": 0.0, "all-live": 1.0}.get(shape, rng.choice([0.2, 0.5, 0.8]))
+        self.alloc(rng.randrange(1, self.nobj + 1))
+        keep = set()
+        for g in range(self.ngc):
+            if shape in ("mixed", "full-chain") and rng.random() < 0.7:
+                alive = sorted(self.young | self.old)
+                keep |= set(rng.sample(alive, min(len(alive), rng.randrange(1, 4)))) if alive else set()
+            if rng.random() < 0.1:
+                self.ops.append("los aslive 1"); self.aslive = True
+                self.alloc(1)
+                self.ops.append("los aslive 0"); self.aslive = False
+            self.gc(rng.random() < pfull, pmark, keep if shape != "all-die" else set())
+            if rng.random() < 0.8:
+                self.alloc(rng.randrange(0, 9))
+        return self.ops, shape
+
+
+def los_malformed(rng, plan, nobj, ngc):
+    """A valid history with protocol violations spliced in: every one of them must be answered by an error token
+    (`dead`, `unknown`, `dup`, `refused`) on both sides, and the real LOS must be left untouched by it."""
+    g = LosGen(rng, plan, nobj, ngc)
+    ops, _ = g.history()
+    for _ in range(rng.randrange(1, 6)):
+        i = rng.randrange(1, len(ops) + 1)
+        o = rng.choice([rng.randrange(1, g.next + 3), rng.randrange(1, g.next + 3), 999])
+        ops.insert(i, rng.choice([f"los trace {o}", f"los trace {o}", f"los alloc {o}", "los prepare 0", "los prepare 1",
+                                  "los release 0", "los release 1", "los bogus 1", "los trace", "los alloc x"]))
+    return ops
+
+
+class LosSpec(unit.UnitSpec):
+    pid = "C36"
+    modules = ["MmtkModel.Props.C36"]
+    theorems = []            # audited once, by `main`
+    component = "los"
+    relation = "Mmtk.LOS.{alloc,prepare,traceObject,release} ≙ policy::largeobjectspace::LargeObjectSpace (real plan instance)"
+
+    def __init__(self, plan):
+        self.plan = plan
+
+    def gen(self, rng, tier, debug):
+        n = 500 if tier == "quick" else 3000
+        cases = []
+        for i in range(n):
+            nobj, ngc = rng.choice([1, 2, 3, 5, 8, 8, 13, 13, 20, 25, 25]), rng.choice([1, 1, 2, 3, 4, 6, 8])
+            if rng.random() < 0.8:
+                ops, shape = LosGen(rng, self.plan, nobj, ngc).history()
+                cases.append(Case(ops, tag="los:" + shape))
+            else:
+                cases.append(Case(los_malformed(rng, self.plan, nobj, ngc), tag="los:malformed"))
+        return cases
+
+    def corpus(self, debug):
+        P = self.plan
+        return [
+            # the history a blind tester found to be missed: alloc -> full GC (marked) -> full GC (marked again)
+            Case([f"los reset {P}", "los alloc 1", "los prepare 1", "los trace 1", "los release 1", "los prepare 1",
+                  "los trace 1", "los release 1", "los prepare 1", "los trace 1", "los trace 1", "los release 1",
+                  "los prepare 1", "los release 1"], tag="los:corpus"),
+            # nursery GC: mature objects are skipped and kept; young unmarked die
+            Case([f"los reset {P}", "los alloc 1", "los alloc 2", "los prepare 0", "los trace 1", "los release 0",
+                  "los alloc 3", "los alloc 4", "los prepare 0", "los trace 1", "los trace 3", "los trace 3",
+                  "los release 0", "los prepare 1", "los trace 3", "los release 1"], tag="los:corpus"),
+            # allocation as live while marking; error tokens
+            Case([f"los reset {P}", "los alloc 1", "los prepare 1", "los alloc 2", "los aslive 1", "los alloc 2",
+                  "los trace 2", "los aslive 0", "los release 0", "los release 1", "los trace 1", "los trace 7",
+                  "los alloc 2", "los prepare 1", "los prepare 0", "los trace 2", "los release 1"], tag="los:malformed"),
+        ]
+
+    # ---- the property's own statement, evaluated on what the implementation printed -------------
+    def oracle(self, case, impl_out):
+        bad = []
+        prev = None                          # parsed state printed by the previous op
+        alive, swept_ever, allocated = set(), set(), set()
+        gc, A0, T0, traced, enq = None, set(), set(), set(), set()
+        for op, out in zip(case.ops, impl_out):
+            t = op.split()
+            if t[:2] == ["los", "reset"]:
+                p = los_parse(out)
+                if out == "bad-plan":
+                    return bad
+                if p is None or p["res"] != "ok" or p["F"] or p["T"] or p["C"] or p["A"] or p["bits"] or p["ms"] or p["ng"]:
+                    bad.append(("los:reset", f"`{op}` did not leave an empty space: {out}"))
+                    return bad
+                prev, alive, swept_ever, allocated, gc = p, set(), set(), set(), None
+                continue
+            if prev is None:
+                return bad                   # no space yet: nothing is claimed
+            if out.startswith("bad-op"):
+                continue
+            p = los_parse(out)
+            if p is None:
+                bad.append(("los:panic", f"`{op}` respects the LOS protocol but the real space answered {out!r}"))
+                return bad
+            res, kind = p["res"], t[1]
+            F, T, C, A = set(p["F"]), set(p["T"]), set(p["C"]), set(p["A"])
+            if res in ("refused", "dup", "dead", "unknown"):
+                # the component refused the call itself: the real space must not have changed
+                if any(p[k] != prev[k] for k in ("ms", "ng", "F", "T", "C", "A", "bits")):
+                    bad.append(("los:refused-changed-state", f"`{op}` -> {out}, before: {prev}"))
+                if (res == "dead" and int(t[2]) not in swept_ever) or (res == "unknown" and int(t[2]) in allocated):
+                    bad.append(("los:harness-table", f"`{op}` -> {res}"))
+                if bad:
+                    return bad
+                prev = p
+                continue
+            o = int(t[2])
+            if kind == "alloc":
+                alive.add(o); allocated.add(o)
+                if res != "ok" or o not in (A | T) or (gc is not None and o not in T):
+                    bad.append(("los:alloc", f"`{op}` -> {out}"))
+            elif kind == "aslive":
+                pass
+            elif kind == "prepare":
+                gc = o != 0
+                A0, T0, traced, enq = set(prev["A"]), set(prev["T"]), set(), set()
+                if p["ms"] != (1 - prev["ms"] if gc else prev["ms"]) or p["ng"] != (0 if gc else 1):
+                    bad.append(("los:prepare", f"`{op}`: mark_state {prev['ms']} -> {p['ms']}, in_nursery_gc {p['ng']}"))
+            elif kind == "trace":
+                collected = A0 | (T0 if gc else set())
+                want = o in collected and o not in traced
+                if (res == "enq") != want or res not in ("enq", "skip"):
+                    bad.append(("los:enqueue", f"`{op}` answered {res}; object {o} is{'' if o in collected else ' not'} in a "
+                                               f"collected set and was{'' if o in traced else ' not'} traced before in this GC "
+                                               f"(an object is enqueued exactly at its first trace in a GC that collects it)"))
+                traced.add(o)
+                if o not in T and o in collected:
+                    bad.append(("los:marked-kept", f"after `{op}` the traced object is not in to_space: {out}"))
+            elif kind == "release":
+                m = re.match(r"^swept=\[([\d,]*)\]$", res)
+                if not m:
+                    bad.append(("los:sweep-exact", f"`{op}` -> {res}"))
+                    return bad
+                got = ids(m.group(1))
+                collected = A0 | (T0 if gc else set())
+                if len(set(got)) != len(got) or set(got) != collected - traced:
+                    bad.append(("los:sweep-exact", f"`{op}` released the pages of {sorted(got)}; the untraced objects of the "
+                                                   f"collected sets are {sorted(collected - traced)} (collected {sorted(collected)}, "
+                                                   f"traced {sorted(traced)})"))
+                if set(got) & swept_ever:
+                    bad.append(("los:swept-twice", f"`{op}` released {sorted(set(got) & swept_ever)} a second time"))
+                if not (traced & alive) <= T:
+                    bad.append(("los:marked-kept", f"traced objects {sorted((traced & alive) - T)} are not in to_space after `{op}`: {out}"))
+                if not gc and (not T0 <= T or set(got) & T0):
+                    bad.append(("los:nursery-keeps-mature", f"nursery GC lost mature objects: before {sorted(T0)}, after T={sorted(T)} swept={got}"))
+                alive -= set(got); swept_ever |= set(got)
+                gc = None
+            else:
+                continue
+            # (a) every live object is in exactly one set, nothing else anywhere
+            allo = p["F"] + p["T"] + p["C"] + p["A"]
+            if len(set(allo)) != len(allo) or set(allo) != alive:
+                bad.append(("los:one-set", f"after `{op}` the sets of the real space do not hold each of the live objects "
+                                           f"{sorted(alive)} exactly once: {out}"))
+            # (b) the per-object bits agree with the set the object is in
+            ms = p["ms"]
+            if set(p["bits"]) != alive or ms not in (0, 1):
+                bad.append(("los:bits", f"after `{op}`: bits of {sorted(p['bits'])}, live {sorted(alive)}, ms={ms}"))
+            for i, b in p["bits"].items():
+                nursery, marked = bool(b & 2), (b & 1) == ms
+                want_marked = i in T or i in A or (gc is False and i in C)
+                if b > 3 or nursery != (i in A or i in C) or marked != want_marked:
+                    bad.append(("los:bits", f"after `{op}` object {i} has bits {b} (mark_state {ms}) but is in "
+                                            f"{'F' if i in F else 'T' if i in T else 'C' if i in C else 'A' if i in A else 'no set'}"
+                                            f"{'' if gc is None else ' during a full GC' if gc else ' during a nursery GC'}"))
+                    break
+            # phase shape (what LargeObjectSpace::release debug_asserts)
+            if (gc is None and (C or F)) or (gc is not None and A) or (gc is False and F):
+                bad.append(("los:phase-shape", f"after `{op}`: {out}"))
+            if bad:
+                return bad
+            prev = p
+        return bad
+
+    def nontrivial(self, case, out):
+        return any(l.startswith("enq ") for l in out) and any(l.startswith("swept=[") and not l.startswith("swept=[]") for l in out)
+
+    def summarize(self, cases, outs):
+        h, tags, gcs, objs, ngc, res, surv = {}, {}, {"nursery": 0, "full": 0}, {}, {}, {}, {}
+        for c, o in zip(cases, outs):
+            tags[c.tag or "?"] = tags.get(c.tag or "?", 0) + 1
+            na = sum(1 for x in c.ops if x.startswith("los alloc"))
+            ng = sum(1 for x in c.ops if x.startswith("los prepare"))
+            b = "1-3" if na <= 3 else "4-8" if na <= 8 else "9-15" if na <= 15 else "16+"
+            objs[b] = objs.get(b, 0) + 1
+            b = str(ng) if ng <= 3 else "4-5" if ng <= 5 else "6+"
+            ngc[b] = ngc.get(b, 0) + 1
+            streak, best = {}, 0
+            for op, l in zip(c.ops, o):
+                k = " ".join(op.split()[1:2])
+                h[k] = h.get(k, 0) + 1
+                r = l.split(" ")[0].split("=")[0]
+                if op == "los release 1" and r == "swept":
+                    pp = los_parse(l)
+                    streak = {i: streak.get(i, 0) + 1 for i in (pp["T"] if pp else [])}
+                    best = max([best, *streak.values()])
+                res[r] = res.get(r, 0) + 1
+                if op == "los prepare 0":
+                    gcs["nursery"] += 1
+                if op == "los prepare 1":
+                    gcs["full"] += 1
+            b = str(best) if best <= 3 else "4+"
+            surv[b] = surv.get(b, 0) + 1
+        return {"los_full_gcs_survived_in_a_row_max_per_case": surv, "los_ops": h, "los_case_kind": tags, "los_gcs": gcs, "los_objects_per_case": objs, "los_gcs_per_case": ngc,
+                "los_results": res, "los_plan_cases": {self.plan: len(cases)}}
+
+
+LOS_THEOREMS = ["Mmtk.LOS.los_one_set", "Mmtk.LOS.los_one_set_structured", "Mmtk.LOS.los_bits", "Mmtk.LOS.los_bits_mutator",
+                "Mmtk.LOS.los_sweep_exact", "Mmtk.LOS.los_nursery_gc_keeps_mature", "Mmtk.LOS.los_swept_once_ever",
+                "Mmtk.LOS.los_protocol_never_panics", "Mmtk.LOS.inv_step", "Mmtk.LOS.gc_run", "Mmtk.LOS.trace_young",
+                "Mmtk.LOS.trace_old", "Mmtk.LOS.trace_kept", "Mmtk.LOS.release_spec"]
+
+LOS_ASSUMPTIONS = [
+    "los stream: single GC worker (the CAS of test_and_mark succeeds at once); concurrent workers are covered at the "
+    "treadmill level (one mutex) and by C18 (test_and_mark marks exactly once under contention)",
+    "los stream protocol (Mmtk.LOS.allowed): alloc of an address that is in no set, nursery allocation only between GCs, "
+    "as-live allocation any time; prepare(f) between GCs; trace of any object currently in the space, any number of "
+    "times, in any order; release(f) with the flag of prepare — read off CommonPlan::prepare/release and ProcessEdgesWork",
+    "the VO bit and the unlog bit that LargeObjectSpace also maintains are not modelled (C31/C32 cover them)"]
+
+LOS_RULE = ("los stream, one hx_unit process per plan (quick: GenImmix, SemiSpace; thorough: + GenCopy, StickyImmix, Immix, "
+            "MarkSweep): protocol-respecting histories on the REAL LargeObjectSpace of a real MMTk instance — 1..25 real "
+            "large objects (1-3 pages), 1..8 GCs mixing nursery and full-heap (shapes: mixed, chain of full GCs with a "
+            "survivor set traced every time, everything dies, nursery only, everything lives), traces of random subsets "
+            "with repeats, mature objects traced in nursery GCs, allocation between GCs, allocation as live while marking; "
+            "malformed stream: trace of a swept / unknown id, duplicate id, nursery allocation / prepare during a GC, "
+            "release without or with the wrong flag, garbage (answered by error tokens, the real space must not change); "
+            "every op prints mark_state, in_nursery_gc, the four sorted sets and the raw bits of every live object; "
+            "swept ids are read from the sweep closure's release_pages events (with multiplicity); non-trivial = a "
+            "history that both enqueues and sweeps")
+
+
+def merge_stats(dst, src, prefix):
+    for k in ("evaluations", "op_lines", "disagreements"):
+        dst[k] = dst.get(k, 0) + src.get(k, 0)
+    dst.setdefault("build_s", []).extend(src.get("build_s", []))
+    dst.setdefault("_distinct", set()).update((prefix,) + x for x in src.get("_distinct", set()))
+    dst.setdefault("samples", []).extend(src.get("samples", [])[:2])
+    for k, v in src.get("distribution", {}).items():
+        if isinstance(v, dict):
+            d = dst.setdefault("distribution", {}).setdefault(k, {})
+            for kk, vv in v.items():
+                d[kk] = d.get(kk, 0) + vv
+        else:
+            dst.setdefault("distribution", {})[k] = v
+    dst.setdefault("stream_evaluations", {})[prefix] = src.get("evaluations", 0)
+
+
 def main(argv=None):
-    return unit.main(Spec(), argv)
+    ap = argparse.ArgumentParser()
+    ap.add_argument("--tier", default=os.environ.get("VERIF_TIER", "quick"))
+    ap.add_argument("--seed", type=int, default=int(os.environ.get("VERIF_SEED", "20260921")))
+    ap.add_argument("--replay")
+    a = ap.parse_args(argv)
+    t0 = time.time()
+    tread = Spec()
+    if a.replay:
+        lines = [l for l in json.load(open(a.replay))["case"] if not l.startswith("cfg ")]
+        plan = next((l.split()[2] for l in lines if l.startswith("los reset ") and len(l.split()) == 3), None)
+        return unit.replay(LosSpec(plan) if plan or any(l.startswith("los") for l in lines) else tread, a.replay)
+    violations, stats = [], {}
+    theorems = tread.theorems + LOS_THEOREMS
+    lean = E.lean_check(tread.modules, theorems, fresh=(a.tier == "thorough"))
+    lean["targets"] = tread.modules
+    profiles = [True] + ([False] if a.tier == "thorough" else [])
+    st = {}
+    for debug in profiles:
+        unit.run_profile(tread, a.tier, a.seed, debug, lean["ok"], violations, st)
+    merge_stats(stats, st, "tread")
+    for plan in (PLANS_QUICK if a.tier == "quick" else PLANS_THOROUGH):
+        st = {}
+        for debug in profiles:
+            unit.run_profile(LosSpec(plan), a.tier, a.seed, debug, lean["ok"], violations, st)
+        merge_stats(stats, st, "los:" + plan)
+    if not lean["ok"] and not any(v.found_input for v in violations):
+        names = [f.get("theorem") or f.get("module") or f["kind"] for f in lean["failures"]]
+        violations.append(Violation("proof-broken", f"Lean obligations no longer check: {lean['failures']}",
+                                    None, None, None, False, broken=f"theorems/modules: {names}"))
+    corr = {
+        "evaluations": stats.get("evaluations", 0),
+        "distinct_nontrivial": len(stats.pop("_distinct", set())),
+        "rule": tread.rule + " || " + LOS_RULE,
+        "samples": stats.get("samples", []),
+        "traces_validated_against_impl": stats.get("evaluations", 0),
+        "disagreements_checked": stats.get("disagreements", 0),
+        "op_lines": stats.get("op_lines", 0),
+        "stream_evaluations": stats.get("stream_evaluations", {}),
+        "distribution": stats.get("distribution", {}),
+        "harness_build_s": stats.get("build_s"),
+        "lean_s": lean.get("lean_s"),
+    }
+    return E.finish("C36", a.tier, a.seed, t0, lean, corr, violations, assumptions=tread.assumptions + LOS_ASSUMPTIONS)
